@@ -4,6 +4,7 @@
   Tranp/Lemmas/CacheFS.lean, CacheFSInst.lean (concrete instances) and JsonText.lean.
 -/
 import Tranp.Lemmas.CacheFSInst
+import Tranp.Lemmas.CacheFSFuel
 import Tranp.Lemmas.JsonText
 import Tranp.Lemmas.JsonCodec
 import Tranp.Generated.LarkCache
@@ -217,6 +218,26 @@ example :
     ((run cyc w true).err = none ∧ (run cyc w true).cyc = true ∧ (run cyc w true).out.length = 2 ∧ (run cyc w true).ids.length = 2 ∧
       (run cyc w true).out = (run cyc w.clearCache true).out) := by
   decide +kernel
+
+/-- **`__collect_hashes` terminates on every import graph, and the model's fuel is never what ends it.** Every descent first
+    enters a not yet visited registered module into the visited dict, so from `trees.length + 2` units on (what `identityCore`
+    passes) the result of the traversal does not depend on the fuel: for every semantics, source state, list of loaded trees,
+    `depends_on` set and start module — import cycles included. A `none` of the model's `Module.identity` therefore always is
+    the FileNotFoundError of the code, never an artefact of the model. -/
+theorem collect_fuel_free (S : Sem) (srcs : Dir) (trees : List (Str × Str)) (depd : List Str) (k : Str) (f : Nat)
+    (hf : trees.length + 2 ≤ f) :
+    collect S srcs trees depd f [] k = collect S srcs trees depd (trees.length + 2) [] k :=
+  collect_fuel_bound S srcs trees depd k f hf
+
+/-- non-vacuity: `a` and `b` import each other; the traversal from `a` visits both and stops (4 units suffice, 100 give the same) -/
+example :
+    let cyc : Sem := { cxSem with importsOf := fun tree => if tree = [c4, '}'] then [['b']] else if tree = [c3, '}'] then [['a']] else [] }
+    let srcs : Dir := [(['a'], ⟨[c4], 0⟩), (['b'], ⟨[c3], 0⟩)]
+    let trees : List (Str × Str) := [(['a'], [c4, '}']), (['b'], [c3, '}'])]
+    ((collect cyc srcs trees [['a'], ['b']] 4 [] ['a']).map (·.map (·.1)) = some [['a'], ['b']] ∧
+      collect cyc srcs trees [['a'], ['b']] 100 [] ['a'] = collect cyc srcs trees [['a'], ['b']] 4 [] ['a']) := by
+  refine ⟨by decide +kernel, ?_⟩
+  exact collect_fuel_free _ _ _ _ _ 100 (by decide)
 
 /-! ### C05.output_warm_cold — rendered text and failure status -/
 
